@@ -10,7 +10,7 @@ COMMON_TB = [
 PROPS = {
     "C01": {
         "level_text": "Lean 4 theorem over a labelled transition system of concurrent writers of the truth log (one transition = one effect: take the seq mutex, choose the seq from the in-memory map or — after a restart — from the log and append, bump the map, release; thread creation by branch/handoff/ensure_default with its hard-coded seq 0 and 1 frames; authority restarts): for EVERY number of writers, every program with fresh thread ids and EVERY interleaving, every stream's frames carry seq 0,1,2,... in file order (a validated replay succeeds); the mutex is exclusive; appends to a thread still being created write nothing. The full statement was false before the repair (witness kept: a client addressing a new thread between its creation frame and its lineage frame duplicated seq 1) and is now proved without any assumption on addressing. Obligations re-proved by decide on the effect orders REGENERATED from the current source on every run: all eleven append functions are critical sections of the modelled shape; branch, handoff and ensure_default create inside the seq lock; the log file write is body+newline+flush under its own mutex. Tied further by (a) a real-concurrency stress (2-6 OS threads, all append kinds, branch, handoff, compaction jobs, scheduler, linked session runs, across a restart) whose log must replay validated, and (b) controlled-schedule correspondence: writers single-stepped between the effects of the real functions, final (stream, seq) sequence compared with the LTS run on the same schedule; the witness schedule is replayed on the real store on every run.",
-        "level_note": "Lean kernel; std::sync::Mutex is a mutex; O_APPEND writes of one frame are not interleaved (EventLog's own mutex, generated obligation); session and task streams are numbered by one sequential writer each (session seq threading, task emitter mutex) and are covered by the stress oracle and by C07/C17, not by the LTS; preemption inside one effect is outside the model.",
+        "level_note": "Lean kernel; std::sync::Mutex is a mutex; O_APPEND writes of one frame are not interleaved (EventLog's own mutex, generated obligation); session and task streams are covered by a second LTS (any number of concurrent emitters on one stream; Rip.Model.Emitters) whose tie is the regenerated emitter order (C06) and the two-emitter controlled schedules of the C06 check, plus the stress oracle here; preemption inside one effect is outside the model.",
         "technique": "Lean 4 proof (inductive invariant over all interleavings incl. restarts) + decide over regenerated effect orders + stress and controlled-schedule correspondence",
         "design_ref": "§5 C01",
         "trusted_base": COMMON_TB + [
